@@ -50,7 +50,30 @@ package clickhouse_transpiler
 // A disjunction without operands renders as "()", which is not SQL: the pre-filter
 // on attribute rows is only added when some term asks for an attribute (a selector
 // such as {duration > 1s} has none).
+// `||` keeps the spans matched by either operand: the attribute terms may pre-filter
+// the index rows only when every span that satisfies the whole condition has a row
+// matching one of them - a leaf that is an attribute term, an && with one such
+// operand, an || whose operands all are ({.a="x" || duration>1s} must also see the
+// spans that have no .a at all).
+//@ func isAttrTerm [C11]
+//@   flag function
+//@   modifies nothing
+//@   ensures attribute-or-name: result <==> (hasPrefix(label, "span.") || hasPrefix(label, "resource.") || hasPrefix(label, ".") || label == "name")
+//@ func (*AttrConditionPlanner).whereImplied [C11]
+//@   flag function
+//@   flag checks=-index,-assert
+//@   modifies nothing
+//@   ensures leaf-is-an-attribute-term: c.simpleIdx != -1 ==> (result <==> isAttrTerm(a.Terms[c.simpleIdx].Label))
+//@   ensures and-needs-one-operand: c.simpleIdx == -1 && c.op == "&&" ==> (result <==> (exists k int :: 0 <= k && k < len(c.complex) && a.whereImplied(c.complex[k])))
+//@   ensures or-needs-every-operand: c.simpleIdx == -1 && c.op != "&&" ==> (result <==> (forall k int :: 0 <= k && k < len(c.complex) ==> a.whereImplied(c.complex[k])))
+//@   loop 1:
+//@     invariant rangeindex >= -1 && rangeindex + 1 <= len(c.complex)
+//@     invariant forall k int :: 0 <= k && k <= rangeindex ==> !a.whereImplied(c.complex[k])
+//@   loop 2:
+//@     invariant rangeindex >= -1 && rangeindex + 1 <= len(c.complex)
+//@     invariant forall k int :: 0 <= k && k <= rangeindex ==> a.whereImplied(c.complex[k])
 //@ func (*AttrConditionPlanner).Process [C11,C14]
+//@   at sql_select.Or$ pre-filter-only-when-the-condition-implies-it: aliases(arg0, a.where) ==> a.whereImplied(a.Conds)
 //@   requires starts-unaliased: !a.isAliased
 //@   requires conditions-built-or-not: len(a.sqlConds) == 0 || len(a.sqlConds) == len(a.Terms)
 //@   ensures ends-unaliased: result1 == nil ==> !a.isAliased
